@@ -29,24 +29,7 @@ FILE = "LdarModel/Props/C11.lean"
 # ---------------------------------------------------------------------------------------------
 # component-level correspondence
 # ---------------------------------------------------------------------------------------------
-def small_world(rng):
-    n = rng.randint(1, 10)
-    comps = []
-    for _ in range(rng.randint(1, 3)):
-        ems = []
-        for _ in range(rng.randint(1, 4)):
-            rep, inter, ad, idur = rng.choice(EC.KINDS)
-            nrd = rng.randint(1, 7)
-            ems.append((rng.randint(-nrd, n), nrd, rng.randint(0, 3), rep, inter, ad, idur, rng.choice([256, 512, 1024, 2048])))
-        evs = []
-        for _ in range(rng.choice([0, 1, 1, 2, 3])):
-            if rng.random() < 0.3:
-                evs.append((rng.randrange(n), rng.randint(4, 5), 0, 1))
-            else:
-                evs.append((rng.randrange(n), rng.randint(1, 3), rng.choice([0, 0, 1, 2])))
-        evs.sort(key=lambda e: e[0])
-        comps.append((ems, evs))
-    return n, comps
+small_world = EC.small_world
 
 
 def impl_rows(world):
